@@ -30,7 +30,8 @@ type c16Req struct {
 type c16Case struct {
 	TimeoutMs int      `json:"timeout_ms"`
 	Reqs      []c16Req `json:"reqs"`
-	LateMs    int      `json:"late_ms"` // how long after the last timeout error the stalled replies are finally sent
+	LateMs    int      `json:"late_ms"`      // how long after the last timeout error the stalled replies are finally sent
+	Kill      bool     `json:"kill_instead"` // the stalling node never answers: its connections are dropped while a follow-up to a healthy node is in flight
 }
 
 const (
@@ -64,6 +65,7 @@ func c16Enum() []c16Case {
 
 func c16Gen(t *rapid.T) c16Case {
 	c := c16Case{TimeoutMs: rapid.SampledFrom(shardPick([]int{100, 300}, 1)).Draw(t, "timeout"), LateMs: rapid.SampledFrom([]int{0, 30, 200}).Draw(t, "late")}
+	c.Kill = rapid.IntRange(0, 2).Draw(t, "kill") == 0
 	n := rapid.IntRange(1, 8).Draw(t, "n")
 	anyStall := false
 	for i := 0; i < n; i++ {
@@ -225,15 +227,39 @@ func c16Run(f *Fixture, c *c16Case) []Discrepancy {
 	if len(st.Replies) > len(reqs) {
 		return []Discrepancy{disc("C16/extra-replies", "%d replies for %d requests (stalled positions %v): extra %s", len(st.Replies), len(reqs), c16Stalled(c), q(st.Replies[len(reqs)].Raw))}
 	}
-	// now the backend finally answers the stalled requests: the late replies must be discarded
-	time.Sleep(time.Duration(c.LateMs) * time.Millisecond)
-	gates.releaseAll()
-	time.Sleep(20 * time.Millisecond)
-	// the connection stays usable: a follow-up through a healthy node is answered with its own reply,
-	// and one through the node that stalled is answered too
 	fk1 := keyFor(c16SlotA, 0, 900, 0)
 	fk2 := keyFor(c16SlotStall, 0, 901, 0)
-	cl.Write(append(refmodel.EncodeCmdS("get", string(fk1)), refmodel.EncodeCmdS("get", string(fk2))...))
+	if c.Kill {
+		// the stalled node never answers; a follow-up through a healthy node is in flight (its reply held for a
+		// moment) when the stalled node's connections go away: the follow-up must still get its own reply
+		held := &gateSet{}
+		f.Cluster.SetHandler(func(req *fakecluster.Request) fakecluster.Action {
+			a := fakecluster.Action{Reply: fakecluster.EchoReply(req)}
+			if req.Key(1) == string(fk1) {
+				a.Gate = held.add(req.Seq)
+			}
+			return a
+		})
+		cl.Write(refmodel.EncodeCmdS("get", string(fk1)))
+		for i := 0; i < 200; i++ {
+			if total, _ := held.counts(); total > 0 {
+				break
+			}
+			time.Sleep(time.Millisecond)
+		}
+		f.Cluster.CloseDataConns(2, c.LateMs%2 == 1)
+		time.Sleep(20 * time.Millisecond)
+		held.releaseAll()
+		cl.Write(refmodel.EncodeCmdS("get", string(fk2)))
+	} else {
+		// now the backend finally answers the stalled requests: the late replies must be discarded
+		time.Sleep(time.Duration(c.LateMs) * time.Millisecond)
+		gates.releaseAll()
+		time.Sleep(20 * time.Millisecond)
+		// the connection stays usable: a follow-up through a healthy node is answered with its own reply,
+		// and one through the node that stalled is answered too
+		cl.Write(append(refmodel.EncodeCmdS("get", string(fk1)), refmodel.EncodeCmdS("get", string(fk2))...))
+	}
 	waitClients(f, []*rclient.Client{cl}, []int{len(reqs) + 2}, 5*time.Second)
 	time.Sleep(30 * time.Millisecond)
 	st = cl.Snapshot()
@@ -286,6 +312,9 @@ func c16Classify(c *c16Case) (bool, []string) {
 		if r.Late {
 			cls = append(cls, "redirection-arrives-after-the-timeout")
 		}
+	}
+	if c.Kill {
+		cls = append(cls, "stalled-connection-dropped-with-a-follow-up-in-flight")
 	}
 	cls = append(cls, fmt.Sprintf("timeout-%d", c.TimeoutMs), fmt.Sprintf("pipeline-%d", len(c.Reqs)))
 	return nt, dedup(cls)
